@@ -36,3 +36,38 @@ def run_suite(ctx, attachments, select=None):
     finally:
         for h in handles:
             h.detach()
+
+
+def run_notebooks(ctx, attachments):
+    """The documentation notebooks (doc/*.ipynb) executed cell by cell while the monitors are attached: the library as its authors show it to users.
+    Errors of the notebook code itself are recorded as events, not verdicts."""
+    import json
+    import glob
+    handles = []
+    try:
+        for path, around in attachments:
+            try:
+                handles.append(monitor.attach(path, around))
+            except LookupError:
+                ctx.mark_inconclusive(f'soak: no binding found for {path}')
+        for nb in sorted(glob.glob(os.path.join(env.REPO, 'doc', '*.ipynb'))):
+            try:
+                cells = [''.join(c['source']) for c in json.load(open(nb))['cells'] if c['cell_type'] == 'code']
+            except Exception:
+                ctx.event('notebook_unreadable')
+                continue
+            ns = {'__name__': '__notebook__'}
+            buf = io.StringIO()
+            ok = 0
+            for src in cells:
+                src = '\n'.join(l for l in src.splitlines() if not l.lstrip().startswith(('%', '!')))
+                try:
+                    with contextlib.redirect_stdout(buf), contextlib.redirect_stderr(buf):
+                        exec(compile(src, os.path.basename(nb), 'exec'), ns)
+                    ok += 1
+                except Exception:
+                    ctx.event('notebook_cell_errors')
+            ctx.event('notebook_cells_executed', ok)
+    finally:
+        for h in handles:
+            h.detach()
